@@ -527,7 +527,7 @@ def _res(world, case, viol, counters, digest):
         if key not in seen:
             seen.add(key)
             out.append(v)
-    res = {"digest": digest, "nontrivial": True, "vtime": world.loop.time() - 1000.0, "events": world.net.seq, "steps": world.loop.steps, "outcome": world.outcome, "counters": counters, "violations": out}
+    res = {"digest": digest, "nontrivial": True, "vtime": world.loop.time() - 1000.0, "events": world.net.seq, "steps": world.loop.steps, "outcome": world.outcome, "counters": counters, "violations": out, "budget_is_verdict": True}
     if case.get("want_sample"):
         res["sample"] = {"case": {k: (v if not isinstance(v, str) or len(v) < 200 else v[:200] + "...") for k, v in case.items()}}
     return res
